@@ -318,6 +318,7 @@ WORKLOADS = [
     Workload("pm", w_pm, 2500, 100000),
     Workload("laser", w_laser, 600, 30000),
     Workload("laser_pm_power", w_laser_pm_power, 60, 3000),
+    Workload("repo_tests", lambda ctx, rng, i: core.run_repo_tests(ctx), 1, 1, budget=1800, tiers=("thorough",)),
 ]
 
 
